@@ -123,6 +123,9 @@ func init() {
 			if w.Batch == 1 || (w.Thorough() && w.Batch%8 == 1) {
 				c09DroppedThenTampered(w, []string{"C09"})
 			}
+			if w.Batch == 2 || (w.Thorough() && w.Batch%8 == 2) {
+				c09ClockSkew(w)
+			}
 			c09Truncation(w)
 		},
 	})
